@@ -30,16 +30,16 @@ impl ChanMsg for CompressRequest {
     }
 }
 //!type src/app/log.rs CompressorClient
-pub(crate) struct CompressorClient {
-    pub(crate) file_name: String,
-    pub(crate) encoder_index: usize,
-    pub(crate) req_tx: mpsc::Sender<CompressRequest>,
+pub struct CompressorClient {
+    pub file_name: String,
+    pub encoder_index: usize,
+    pub req_tx: mpsc::Sender<CompressRequest>,
 }
 //!end
 //!type src/app/log.rs LogServerClient
-pub(crate) struct LogServerClient {
-    ⟦pub ⟧stream: sync::Arc<tokio::sync::Mutex<tokio::net::TcpStream>>,
-    pub(crate) args: server::LogFilterInput,
+pub struct LogServerClient {
+    pub stream: sync::Arc<tokio::sync::Mutex<tokio::net::TcpStream>>,
+    pub args: server::LogFilterInput,
 }
 //!end
 
